@@ -291,6 +291,36 @@ REPLAYERS = {"case": replay_case}
 SHARDABLE = True
 
 
+def replay_wiring(args):
+    """real Runner on float cards: the TMC mode and the squared target mass reach the configuration unchanged, and a request is
+    answered by the TMC class exactly when the mode is not 0"""
+    import yadism.log
+    from yadism.esf import tmc
+    from yadism.runner import Runner
+    from yv.props import c06
+
+    yadism.log.silent_mode = True
+    mode = args["mode"]
+    t, o = c06.cards(dict(mc=1.51, mb=4.92, mt=172.5, kc=1.0, kb=1.0, kt=1.0, Q2=10.0), "ZM-VFNS", 4, pto=0)
+    t.update(TMC=mode, MP=0.9383)
+    try:
+        r = Runner(t, o)
+    except Exception as e:  # noqa
+        return True, f"Runner raises {type(e).__name__}: {e}"
+    got = r.configs.TMC
+    if got != mode:
+        return True, f"the run is configured with TMC={got!r}, the card says {mode}"
+    if abs(float(r.configs.M2target) - 0.9383**2) > 1e-12:
+        return True, f"the run is configured with M2target={r.configs.M2target!r}, the card says MP=0.9383"
+    obj = r.observables["F2_total"].elements[0]
+    if isinstance(obj, tmc.EvaluatedStructureFunctionTMC) != (mode != 0):
+        return True, f"the requested point is served by {type(obj).__name__}"
+    return False, "mode and target mass as on the card"
+
+
+REPLAYERS["wiring"] = replay_wiring
+
+
 def run(chk, only=None):
     from yadism.esf import tmc
 
@@ -376,6 +406,15 @@ def run(chk, only=None):
                               what=f"{cname}: result at M=0 is not the uncorrected structure function")
     if not chk.first:
         return chk.finish(explanation="shard of C10 (see the merged evidence)", rule="")
+    # wiring: the mode and the target mass the formulas are evaluated with are the ones of the cards (through the real Runner)
+    for mode in (0, 1, 2, 3):
+        chk.obligations += 1
+        chk.evaluations += 1
+        bad, detail = replay_wiring(dict(mode=mode))
+        if bad:
+            chk.report("tmc:wiring", f"TMC={mode}: {detail}", "wiring", dict(mode=mode))
+        else:
+            chk.discharged += 1
     with Ctx(chk.seed) as ctx:
         V = grid_and_params(ctx)
         chk.expect_sat("domain", ctx.facts())
